@@ -569,6 +569,43 @@ func genCodecSrc(repo string) (string, error) {
 		sw["select_shape_ok"] = shape
 	}
 
+	// 10. stream/xprotocol/conn.go Dispatch: after handleError answered a request (connection not closed) the loop continues
+	//     in a new stream context (Lib/Seg.v drain, PErrReply case)
+	{
+		fset, f, err := ParseGoFile(repo, "pkg/stream/xprotocol/conn.go")
+		if err != nil {
+			return "", err
+		}
+		v := false
+		if fd := FindFunc(f, "streamConn", "Dispatch"); fd != nil {
+			b := src(fset, fd.Body)
+			switch {
+			case strings.Contains(b, "if closed := sc.handleError(streamCtx, frame, err); closed { return } sc.ctxManager.Next() continue }"):
+				v = true
+			case strings.Contains(b, "sc.handleError(streamCtx, frame, err) return }"):
+				v = false
+			default:
+				unknown("conn.go Dispatch", "error branch")
+			}
+			for _, want := range []string{"if buf.Len() == 0 {", "frame, err := sc.protocol.Decode(streamCtx, buf)", "if frame == nil && err == nil {", "sc.handleFrame(streamCtx, xframe)", "sc.ctxManager.Next()"} {
+				if !strings.Contains(b, want) {
+					unknown("conn.go Dispatch", want)
+				}
+			}
+		} else {
+			unknown("conn.go", "Dispatch missing")
+		}
+		if fd := FindFunc(f, "streamConn", "handleError"); fd != nil {
+			b := src(fset, fd.Body)
+			if !strings.Contains(b, "xframe.GetStreamType() == api.Request") || !strings.Contains(b, "OnDecodeError(stream.ctx, err, xframe.GetHeader())") || !strings.Contains(b, "sc.netConn.Close(api.NoFlush, api.LocalClose)") {
+				unknown("conn.go handleError", "decision table")
+			}
+		} else {
+			unknown("conn.go", "handleError missing")
+		}
+		sw["dispatch_continues_after_reply"] = v
+	}
+
 	names := make([]string, 0, len(sw))
 	for k := range sw {
 		names = append(names, k)
